@@ -58,18 +58,30 @@ def _order_job(args: Tuple[int, int, int, str]) -> List[Case]:
     for v in range(variants):
         s2 = site if v == 0 else SC.shuffle_site(site, rng.randrange(10 ** 9))
         facts = SC.collect_facts(s2)
-        obs, _ = SC.run_and_judge(s2, seed * 100000 + i * 10 + v, "C17", facts)
+        obs, viol = SC.run_and_judge(s2, seed * 100000 + i * 10 + v, "C17", facts)     # placeholder-residue oracle
         hsh = SC.site_hash(obs)
-        viol = None
         if ref is None:
             ref = hsh
-        elif hsh != ref:
+        elif hsh != ref and viol is None:
             viol = f"output differs between two listing orders of the same tree ({ref[:16]} vs {hsh[:16]})"
         out.append(Case(input={"site": s2, "seed": seed * 100000 + i * 10 + v, "variant": v},
                         coq_in=SC.coq_site_in(s2, facts), coq_out=SC.coq_site_obs(obs), impl=SC.obs_json(obs),
                         violation=viol, nontrivial=("error" in obs) or len(obs["pages"]) > 3,
                         tags=SC.site_tags(s2, obs) + [f"order-variant:{v}"]))
     return out
+
+
+def _defect_hist_job(args: Tuple[int, int]) -> Case:
+    """a tree with one defect that every process must report the same way (never with seed-dependent output): two
+    generations under different RNG seeds in the long-lived process, each compared with a fresh process"""
+    seed, i = args
+    rng = random.Random((seed * 1000003 + i) * 7 + 3)
+    prof = ["empty-recipe-block", "title-with-scaled-value", "multiple-readme-same-name"][i % 3]
+    site = G.gen_site(rng, prof, "small")
+    if site["M"] < 2:
+        site["M"] = 2
+    steps = [{"op": "gen", "M": site["M"], "order": rng.randrange(10 ** 6), "rng": rng.randrange(10 ** 6)} for _ in range(2)]
+    return SC.make_history_case(site, steps, seed * 100000 + i)
 
 
 def _hist_job(args: Tuple[int, int]) -> Case:
@@ -94,6 +106,7 @@ def suites(tier: str, seed: int) -> List[Suite]:
         order.cases.extend(cs)
     # the histories run in the long-lived worker processes (their caches are warm from the jobs before)
     hist.cases = SC.pmap(_hist_job, [(seed, i) for i in range(n_hist)])
+    hist.cases += SC.pmap(_defect_hist_job, [(seed, i) for i in range(6 if tier == "quick" else 60)])
     # an unrelated site with more distinct recipes (170) than the compile cache holds (128), generated between two
     # generations of the same tree: ~5 s per case
     hist.cases += SC.gen_noise_history_cases(seed, 6 if tier == "quick" else 40)
